@@ -53,7 +53,7 @@ def confirm(patch, demo):
         rc, out = sh('%s %s' % (PY, demo), cwd=wt, env=env)
         res['demo_with'] = rc
         res['demo_output'] = out[-600:]
-        rc, out = sh('git diff', cwd=wt)
+        rc, out = sh('git diff HEAD', cwd=wt)
         res['rebased_patch'] = out
     finally:
         sh('git -C /repo worktree remove --force %s' % wt)
